@@ -28,7 +28,7 @@ RULE = ("(k) INPUT KINDS, drawn independently for every coordinate array of a ca
         "(integer mesh vertices on a float data grid); float32 data grids are scaled by the number of border pixels so that "
         "np.mean of the float32 border is exact (else run as float64, counted), decisions on float32 squared distances "
         "closer than 1e-5 are skipped; every kind must give the float64 result of the model (1e-9, untouched points "
-        "numerically identical).  Containers: Grid2DIrregular, its subclass Grid2DIrregularUniform, Grid2D, a Mesh2DDelaunay "
+        "numerically identical).  Containers: Grid2DIrregular, its subclass Grid2DIrregularUniform, Grid2D, a plain ndarray, a Mesh2DDelaunay "
         "object as mesh grid, derived (arithmetic) and native->slim structures, also integer-typed.  Sub-size maps: int, "
         "int64 / int32 / float64 / float32 ndarray, int / float Array2D, Python lists of ints / floats; op radial: the map "
         "is what OverSamplingUniform.from_radial_bins returns (float64 Array2D) and the relocator is "
@@ -367,11 +367,11 @@ def rel_case(rng, op, m, sub, subs):
         nb = max(1, py_border_count(m)); grid = [[y * nb, x * nb] for (y, x) in grid]
     mesh = rescale(rng, rand_points(rng, grid, rng.randint(1, 6)), den, vden) if rng.random() > 0.04 else []
     if not mesh and vk in LIST_KINDS: vk = "i8" if vden == 1 else "f8"       # an empty selection is an empty (0, 2) ndarray
-    cont = ["irregular", "irregular"] + ([] if gk in LIST_KINDS else ["irruniform"] + (["grid2d"] * 2 if all(s == 1 for s in subs) else []))
+    cont = ["irregular", "irregular"] + ([] if gk in LIST_KINDS else ["irruniform", "ndarray"] + (["grid2d"] * 2 if all(s == 1 for s in subs) else []))
     return {"op": op, "mask": m, "sub": sub, "grid": grid, "mesh": mesh, "den": den, "vden": vden,
             "mesh_kind": rng.choice(["Delaunay", "Voronoi", "Rectangular"] if op == "mapper" else ["Delaunay", "Voronoi"]),
             "container": rng.choice(cont), "gkind": gk, "vkind": vk,
-            "vcontainer": "irregular" if vk in LIST_KINDS or not mesh else rng.choice(["irregular", "irregular", "mesh2d", "irruniform"])}
+            "vcontainer": "irregular" if vk in LIST_KINDS or not mesh else rng.choice(["irregular", "irregular", "mesh2d", "irruniform", "ndarray"])}
 
 def gen_inputs(tier, rng):
     """deterministically shuffled, so that the (expensive) relocation cases are spread evenly over the Coq shards"""
@@ -486,7 +486,7 @@ def gen_hist(rng, big):
             sl = sub_list(sb, n)
             kd = rand_kind(rng, ints, f4=False)
             cont = "irregular" if kd in LIST_KINDS else rng.choice(
-                ["irregular", "irregular", "derived", "irruniform"] +
+                ["irregular", "irregular", "derived", "irruniform", "ndarray"] +
                 (["grid2d", "derived2d", "slim2d"] if all(v == 1 for v in sl) else ["irregular", "derived"]))
             grids.append({"n": totals[r], "pts": distort(rng, unit_sub_grid16(m, sl)), "container": cont, "kind": kd})
     meshes = []
@@ -494,7 +494,7 @@ def gen_hist(rng, big):
         g = rng.choice(grids)["pts"]
         kd, vd = mixed_kind(rng, ints, den)
         meshes.append({"pts": rescale(rng, rand_points(rng, g, rng.randint(1, 5)), den, vd), "kind": kd, "den": vd,
-                       "container": "irregular" if kd in LIST_KINDS else rng.choice(["irregular", "derived", "mesh2d", "irruniform"])})
+                       "container": "irregular" if kd in LIST_KINDS else rng.choice(["irregular", "derived", "mesh2d", "irruniform", "ndarray"])})
     # steps; pool indexes of kept results are known in advance (len(grids) + number of keeps so far)
     pool_n = [g["n"] for g in grids]
     def pick_grid(r, avoid=None):
@@ -558,6 +558,7 @@ def make_container(aa, kind, vals, mask):
     if isinstance(vals, list): return aa.Grid2DIrregular(values=vals), None                       # Python lists of ints / floats
     ints = vals.dtype.kind == "i"
     if kind == "irregular": return aa.Grid2DIrregular(values=vals), vals                          # aliases the caller's array
+    if kind == "ndarray": return vals, vals                                                       # a plain ndarray, no container
     if kind == "irruniform":                                                                      # SUBCLASS of Grid2DIrregular
         return aa.Grid2DIrregularUniform(values=vals, shape_native=mask.shape_native, pixel_scales=mask.pixel_scales), None
     if kind == "mesh2d":                                                                          # a mesh object as the mesh grid
